@@ -13,7 +13,7 @@ LANGS = ("python", "typescript", "javascript", "rust")
 
 
 # ---------------------------------------------------------------- class generators
-def gen_class(lang, name, n_pub, n_priv, extras, blank, comment, start_line):
+def gen_class(lang, name, n_pub, n_priv, extras, blank, comment, start_line, style="plain"):
     """Returns (lines, expected_public_methods, expected_loc, header_line).
     LOC is counted as the documentation says: non-blank, non-comment lines of the class."""
     L = []
@@ -41,7 +41,8 @@ def gen_class(lang, name, n_pub, n_priv, extras, blank, comment, start_line):
             pub += 1
         cmt = "#"
     elif lang in ("typescript", "javascript"):
-        L.append(f"class {name} {{")
+        L.append({"plain": f"class {name} {{", "abstract": f"abstract class {name} {{", "exported": f"export class {name} {{",
+                  "hash-private": f"class {name} {{", "modifier-private": f"class {name} {{"}[style if lang == "typescript" or style == "hash-private" else "plain"])
         L.append("  x = 1;")
         if comment:
             L.append("  // a comment line")
@@ -52,7 +53,8 @@ def gen_class(lang, name, n_pub, n_priv, extras, blank, comment, start_line):
             if blank:
                 L.append("")
         for i in range(n_priv):
-            L += [f"  _priv{i}() {{", "    return null;", "  }"]
+            pname = f"#priv{i}" if style == "hash-private" else (f"private priv{i}" if (style == "modifier-private" and lang == "typescript") else f"_priv{i}")
+            L += [f"  {pname}() {{", "    return null;", "  }"]
         pub = n_pub
         if "dunder" in extras:
             L += ["  constructor() {", "    this.v = 0;", "  }"]
@@ -65,7 +67,10 @@ def gen_class(lang, name, n_pub, n_priv, extras, blank, comment, start_line):
         L.append("}")
         cmt = "//"
     else:  # rust: struct + impl blocks
-        L += [f"struct {name} {{", "    x: i32,", "}", f"impl {name} {{"]
+        if style == "generic":
+            L += [f"struct {name}<T> {{", "    x: T,", "}", f"impl<T> {name}<T> {{"]
+        else:
+            L += [f"struct {name} {{", "    x: i32,", "}", f"impl {name} {{"]
         if comment:
             L.append("    // a comment line")
         for i in range(n_pub):
@@ -78,7 +83,7 @@ def gen_class(lang, name, n_pub, n_priv, extras, blank, comment, start_line):
         L.append("}")
         pub = n_pub
         if "static" in extras:   # a second impl block for the same struct
-            L += [f"impl {name} {{", "    pub fn stat() -> i32 {", "        2", "    }", "}"]
+            L += [f"impl<T> {name}<T> {{" if style == "generic" else f"impl {name} {{", "    pub fn stat() -> i32 {", "        2", "    }", "}"]
             pub += 1
         cmt = "//"
     loc, in_block = 0, False
@@ -136,8 +141,22 @@ def make_harness(tier):
             n_priv = ctx.pick(f"npriv{c}", (0, 2) if not small else (2,))
             extras = ctx.pick(f"extras{c}", extras_opts if not small else extras_opts[-1:])
             fill = ctx.pick(f"fill{c}", ("plain", "blank+comment") if not small else ("blank+comment",))
+            style = ctx.pick(f"style{c}", {"python": ("plain",), "typescript": ("plain", "abstract", "exported", "hash-private", "modifier-private"),
+                                           "javascript": ("plain", "hash-private"), "rust": ("plain", "generic")}[lang]) if c == 0 else "plain"
             L, pub, loc, hl = gen_class(lang, name, n_pub, n_priv, extras, fill != "plain",
-                                        fill != "plain", len(lines) + 1)
+                                        fill != "plain", len(lines) + 1, style)
+            if lang == "python" and c == 1:
+                # the class may be defined anywhere a class statement can stand; it is judged like any other class
+                # (the enclosing Holder class is not judged: its own line count is a matter of reading)
+                place = ctx.pick("placement1", ("top-level", "nested-in-class", "inside-method", "inside-function", "inside-except-block", "inside-match-case"))
+                wrap = {"top-level": ([], 0, []),
+                        "nested-in-class": (["class Holder:", "    y = 2"], 4, []),
+                        "inside-method": (["class Holder:", "    def build(self):"], 8, ["        return 1"]),
+                        "inside-function": (["def make():"], 4, ["    return 1"]),
+                        "inside-except-block": (["try:", "    import fastmod", "except ImportError:"], 4, []),
+                        "inside-match-case": (["match mode:", "    case 1:"], 8, ["    case _:", "        pass"])}[place]
+                L = wrap[0] + [(" " * wrap[1] + l) if l else l for l in L] + wrap[2]
+                hl += len(wrap[0])
             classes.append((name, pub, loc, hl))
             lines += L + [""]
         content = "\n".join(lines)
